@@ -103,6 +103,8 @@ const FAULTS: &[&str] = &[
   "visibility:private-field",
   "bound:violated",
   "wrong-type:hinted-lambda-body",
+  "visibility:private-class-inferred",
+  "interface:several-members-missing",
 ];
 
 pub fn fault_kinds() -> &'static [&'static str] {
@@ -157,6 +159,81 @@ pub fn inject(p: &mut ProgramIr, t: &mut Tape, kind_idx: usize) -> Option<Fault>
       let mem = dc.members.iter_mut().find(|m| m.name == member && !m.is_method)?;
       mem.is_public = false;
       return Some(Fault { kind, site: format!("{class}.{member}"), module: user });
+    }
+    "visibility:private-class-inferred" => {
+      // a value of another module's private class obtained only through inference (never named,
+      // never imported) and then used: method call, field read, destructuring, match
+      if p.modules.len() < 2 {
+        return None;
+      }
+      let ui = t.choose(p.modules.len());
+      let mut di = t.choose(p.modules.len() - 1);
+      if di >= ui {
+        di += 1;
+      }
+      let variant = t.choose(5);
+      let def_path = p.modules[di].path.clone();
+      let tag = p.modules[di].classes.len();
+      let hidden = format!("Hidden{tag}");
+      let gate = format!("Gate{tag}");
+      let hty = Ty::Class(def_path.clone(), hidden.clone(), vec![]);
+      let int = |n: i32| Expr::new(Ty::Int, EK::Int(n));
+      let is_enum = variant == 3;
+      let reveal = Member {
+        name: "reveal".into(),
+        is_method: true,
+        is_public: true,
+        tparams: vec![],
+        params: vec![],
+        ret: Ty::Int,
+        body: Some(int(7)),
+      };
+      let hidden_class = Class {
+        name: hidden.clone(),
+        is_interface: false,
+        private: true,
+        tparams: vec![],
+        typedef: if is_enum { TypeDef::Enum(vec![("HA".to_string() + &tag.to_string(), vec![Ty::Int]), ("HB".to_string() + &tag.to_string(), vec![])]) } else { TypeDef::Struct(vec![("v".into(), Ty::Int, true)]) },
+        implements: vec![],
+        members: vec![reveal],
+      };
+      let ctor = if is_enum { format!("HA{tag}") } else { "init".to_string() };
+      let open = Member {
+        name: "open".into(),
+        is_method: false,
+        is_public: true,
+        tparams: vec![],
+        params: vec![],
+        ret: hty.clone(),
+        body: Some(Expr::new(hty.clone(), EK::StaticCall { module: def_path.clone(), class: hidden.clone(), member: ctor, targs: vec![], args: vec![int(1)] })),
+      };
+      let gate_class = Class { name: gate.clone(), is_interface: false, private: false, tparams: vec![], typedef: TypeDef::None, implements: vec![], members: vec![open] };
+      p.modules[di].classes.push(hidden_class);
+      p.modules[di].classes.push(gate_class);
+      let opened = || Expr::new(hty.clone(), EK::StaticCall { module: def_path.clone(), class: gate.clone(), member: "open".into(), targs: vec![], args: vec![] });
+      let wild = |e: Expr| Stmt::Let { pat: Pat::Wild, annot: None, init: e };
+      let stmts: Vec<Stmt> = match variant {
+        0 => vec![wild(Expr::new(Ty::Int, EK::MethodCall { recv: Box::new(opened()), method: "reveal".into(), targs: vec![], args: vec![] }))],
+        1 => vec![wild(Expr::new(Ty::Int, EK::Field { obj: Box::new(opened()), field: "v".into() }))],
+        2 => vec![Stmt::Let { pat: Pat::Struct(vec![("v".into(), Pat::Var(format!("hq{tag}"), Ty::Int))]), annot: None, init: opened() }],
+        3 => vec![wild(Expr::new(
+          Ty::Int,
+          EK::Match { scrut: Box::new(opened()), arms: vec![(Pat::Variant(format!("HA{tag}"), vec![Pat::Var(format!("hq{tag}"), Ty::Int)]), Expr::new(Ty::Int, EK::Var(format!("hq{tag}")))), (Pat::Variant(format!("HB{tag}"), vec![]), int(0))] },
+        ))],
+        _ => vec![
+          Stmt::Let { pat: Pat::Var(format!("hq{tag}"), hty.clone()), annot: None, init: opened() },
+          wild(Expr::new(Ty::Int, EK::MethodCall { recv: Box::new(Expr::new(hty.clone(), EK::Var(format!("hq{tag}")))), method: "reveal".into(), targs: vec![], args: vec![] })),
+        ],
+      };
+      let m = &mut p.modules[ui];
+      let user = m.path.clone();
+      let c = m.classes.iter_mut().find(|c| !c.is_interface && c.members.iter().any(|m| m.body.is_some()))?;
+      let with_body: Vec<usize> = c.members.iter().enumerate().filter(|(_, m)| m.body.is_some()).map(|(i, _)| i).collect();
+      let mem = &mut c.members[with_body[t.choose(with_body.len())]];
+      let body = mem.body.take().unwrap();
+      mem.body = Some(Expr::new(body.ty.clone(), EK::Block { stmts, last: Some(Box::new(body)) }));
+      let site = format!("{}.{}/{}", c.name, mem.name, ["method-call", "field-read", "destructuring", "match", "method-call-on-variable"][variant]);
+      return Some(Fault { kind, site, module: user });
     }
     "visibility:private-field" => {
       // a field read `x.f` on a class type from inside another class: make that field private
@@ -238,6 +315,17 @@ pub fn inject(p: &mut ProgramIr, t: &mut Tape, kind_idx: usize) -> Option<Fault>
         }
       }
       return None;
+    }
+    "interface:several-members-missing" => {
+      // the interface gains 2-4 members that no implementing class defines
+      let implementer = p.modules.iter().find_map(|m| m.classes.iter().find(|c| !c.is_interface && c.implements.iter().any(|t| matches!(t, Ty::Class(_, n, _) if n == "Cmp"))).map(|c| (m.path.clone(), c.name.clone())))?;
+      let n = 2 + t.choose(3);
+      let iface = p.modules.iter_mut().flat_map(|m| m.classes.iter_mut()).find(|c| c.is_interface && c.name == "Cmp")?;
+      for i in 0..n {
+        let is_method = t.bool(2, 3);
+        iface.members.push(Member { name: format!("{}{i}", ["extra", "more", "also", "other", "aMemberWithAVeryLongName", "yetAnotherRatherLongName"][t.choose(6)]), is_method, is_public: true, tparams: vec![], params: vec![], ret: Ty::Int, body: None });
+      }
+      return Some(Fault { kind, site: format!("{}+{n}", implementer.1), module: implementer.0 });
     }
     "interface:member-missing" | "interface:member-mistyped" => {
       for m in p.modules.iter_mut() {
